@@ -1643,6 +1643,23 @@ pub fn f5o() -> Vec<Case> {
         p.funcs.push(acc.clone());
         out.push(case("F5o", format!("function-output:{conn}:read-before-write-twice"), p, 2, true));
     }
+    // declared initial values of FUNCTION outputs: visible through `=>` until the body assigns them
+    {
+        let f = Func {
+            name: "Fo".into(),
+            ret: Some(Ty::Int),
+            inputs: vec![Decl::new("a", Ty::Int)],
+            outputs: vec![Decl::init("o", int(Ty::Int, 7)), Decl::init("p", int(Ty::Int, -3))],
+            body: vec![assign("Fo", var("a")), S::If(vec![(bin(Op::Gt, var("a"), l(1)), vec![assign("o", var("a"))])], None)],
+            ..Default::default()
+        };
+        let mut p = prog(
+            vec![Decl::new("r", Ty::Int), Decl::new("oo", Ty::Int), Decl::new("pp", Ty::Int), Decl::new("c", Ty::Int)],
+            vec![assign("c", bin(Op::Add, var("c"), l(1))), assign("r", E::Call("Fo".into(), vec![Arg::In("a".into(), var("c")), Arg::Out("o".into(), "oo".into()), Arg::Out("p".into(), "pp".into())]))],
+        );
+        p.funcs.push(f);
+        out.push(case("F5o", "function-output:declared-initial-value".into(), p, 3, true));
+    }
     // the same inside a function whose own local has the output's name
     {
         let outer = Func {
